@@ -72,7 +72,7 @@ def run_limited(argv, stdin=None, cwd=None, env=None, timeout=20.0, fsize=-1, as
     if env:
         e.update(env)
     r, w = os.pipe()
-    cmd = [RUNNER, str(int(timeout * 1000)), str(fsize), str(as_mb), sigpipe, '--'] + list(argv)
+    cmd = [RUNNER, str(int(timeout * 1000)), str(fsize), str(as_mb), sigpipe, str(w), '--'] + list(argv)
     so = subprocess.PIPE
     f = None
     if stdout_path is not None:
@@ -80,13 +80,10 @@ def run_limited(argv, stdin=None, cwd=None, env=None, timeout=20.0, fsize=-1, as
         so = f
     elif stdout_fd is not None:
         so = stdout_fd
-
-    def pre():
-        os.dup2(w, 3)
     try:
         p = subprocess.Popen(cmd, stdin=subprocess.PIPE if stdin is not None else subprocess.DEVNULL,
                              stdout=so, stderr=subprocess.PIPE, cwd=cwd, env=e,
-                             pass_fds=(w,), preexec_fn=pre if w != 3 else None)
+                             pass_fds=(w,))
     finally:
         os.close(w)
         if f:
